@@ -22,10 +22,30 @@ pub fn expected(text: &str, pos: usize, file: Option<&str>) -> (usize, usize, St
     (line, col, loc, the_line, caret)
 }
 
+/// every kind of error a parser can report (the location must not depend on it)
+fn kinds() -> Vec<ParseErrorSpecifics> {
+    vec![
+        ParseErrorSpecifics::ExpectedAnyCharacter,
+        ParseErrorSpecifics::ExpectedCharacter { c: 'x' },
+        ParseErrorSpecifics::ExpectedCharacterRange { from: 'a', to: 'z' },
+        ParseErrorSpecifics::ExpectedString { s: "let" },
+        ParseErrorSpecifics::ExpectedCharacterClass { name: "Letter" },
+        ParseErrorSpecifics::ExpectedEoi,
+        ParseErrorSpecifics::NegativeLookaheadFailed,
+        ParseErrorSpecifics::CheckFunctionFailed { function_name: "f" },
+        ParseErrorSpecifics::ExternRuleFailed { error_string: "no" },
+        ParseErrorSpecifics::LeftRecursionSentinel,
+    ]
+}
+
 fn check_one(st: &mut Stats, text: &str, pos: usize, file: Option<&str>, colors: bool) {
+    check_kind(st, text, pos, file, colors, ParseErrorSpecifics::ExpectedEoi)
+}
+
+fn check_kind(st: &mut Stats, text: &str, pos: usize, file: Option<&str>, colors: bool, specifics: ParseErrorSpecifics) {
     st.evaluations += 1;
     colored::control::set_override(colors);
-    let err = ParseError { position: pos, specifics: ParseErrorSpecifics::ExpectedEoi };
+    let err = ParseError { position: pos, specifics };
     let r = catch_unwind(AssertUnwindSafe(|| PrettyParseError::from_parse_error(&err, text, file).to_string()));
     let (line, col, loc, the_line, caret) = expected(text, pos, file);
     if line > 1 || col > 1 {
@@ -89,6 +109,19 @@ pub fn run(tier: Tier) {
             pairs += 1;
             for file in [None, Some("src/g.ebnf")] {
                 check_one(&mut st, t, pos, file, false);
+            }
+        }
+    }
+    // every kind of error on the shorter texts of both alphabets (the location is a function of text and position only)
+    for t in texts.iter().chain(texts2.iter()).filter(|t| t.chars().count() + 1 <= len) {
+        for pos in 0..=t.len() {
+            if !t.is_char_boundary(pos) {
+                continue;
+            }
+            for k in kinds() {
+                pairs += 1;
+                st.bump("error_kind_pairs", 1);
+                check_kind(&mut st, t, pos, if pos % 2 == 0 { None } else { Some("g.ebnf") }, false, k);
             }
         }
     }
